@@ -235,7 +235,7 @@ func getObjectValueFromKey(v interface{}, key string) (interface{}, error) {
 	switch rt.Kind() {
 	case reflect.Map:
 		mv := rv.MapIndex(reflect.ValueOf(key))
-		if mv.Kind() == 0 || mv.IsZero() {
+		if mv.Kind() == 0 {
 			return nil, nil
 		}
 		return mv.Interface(), nil
